@@ -57,6 +57,8 @@ def showOutcome : Pc → String
 def handle (st0 script fault : String) : Option String := do
   let st0 ← st0.toNat?
   let sc ← mapM? parseItem (splitList script ',')
+  -- `<fault>.<kind>`: the kind of context that is done; the model only knows "the context is done"
+  let fault := (fault.splitOn ".").headD fault
   let O ← (fault.splitOn "/").foldlM parsePart quiet
   let c := run O (2 * sc.length + 8) (init sc)
   let evs := c.tr.reverse.map showEv
